@@ -275,7 +275,7 @@ func propC04(o *out, r *rng, thorough bool) {
 		"SELECT *::foo FROM cpu", "SELECT *::\n  foo FROM cpu", "SELECT *:: FROM m", "SELECT x::foo FROM m", "SELECT x:: FROM m", "SELECT mean(*::foo) FROM m", "SELECT *::field::tag FROM m",
 		"SELECT a, *::\r\n\tbar, c FROM m", "SELECT * ::field FROM m", "SELECT v FROM m GROUP BY *::foo", "SELECT DISTINCT 5 FROM m", "SELECT DISTINCT( FROM m", "SELECT count(DISTINCT) FROM m",
 		"SELECT value /* a * b / c", "/*", "SELECT 1 /* x *", "SELECT v FROM m -- c", "SELECT v FROM m /* never closed", "CREATE RETENTION POLICY p ON d DURATION 3µ4ms REPLICATION 1", "CREATE RETENTION POLICY p ON d DURATION 1h REPLICATION 0", "SELECT v INTO FROM m", "CREATE SUBSCRIPTION s ON d.r DESTINATIONS ALL 'udp://h1:9093', 'udp://h1:9093'", "CREATE SUBSCRIPTION s ON d.r DESTINATIONS ANY 'a', 'b', 'a', 'a'", "SHOW TAG VALUES WITH KEY IN (k, k, k)",
-		"\rSELECT", "SELECT value\rFROM cpu\rWHERE", "a +\r", "SELECT\r\r\rv FROM\r", "SELECT v\r\nFROM m\rWHERE\n\rx =", "\r\r\r\r\r)", "SELECT \"caf\xe9\xe8\" FRM cpu", "SELECT v FROM m WHERE f(time > 0)",
+		"value > $threshold", "f($x)", "$\"multi word\" + 1", "-$x", "host =~ $re", "\rSELECT", "SELECT value\rFROM cpu\rWHERE", "a +\r", "SELECT\r\r\rv FROM\r", "SELECT v\r\nFROM m\rWHERE\n\rx =", "\r\r\r\r\r)", "SELECT \"caf\xe9\xe8\" FRM cpu", "SELECT v FROM m WHERE f(time > 0)",
 		"SELECT mean(*) + max(*) FROM cpu", "SELECT top(*, *, 3) FROM cpu", "SELECT max(/^a/) - min(/^b/) FROM cpu",
 		"SELECT \"ȺȺȺȺȺȺ\" FROM cpu", "SELECT v FROM \"ȺȺȺȺȺȺ\".a.b.c", "SELECT v FROM \"ȾȾȾȾȾȾȾȾ\".\"Ⱥ\".b.c.d", "SELECT v FROM $p.a.b.c", "DROP MEASUREMENT \"ȺȺȺȺȺȺȺȺ\" x", "SELECT ȺȺȺȺȺȺ FROM m"} {
 		for _, ps := range []map[string]interface{}{nil, {"p": int64(1)}, {"p": "s"}, {"p": map[string]interface{}{"regex": "("}}, {"p": map[string]interface{}{"duration": "zz"}}, {"p": map[string]interface{}{"duration": "7µ1m"}}, {"p": float64(-1.5)}, {"p": true},
